@@ -116,6 +116,8 @@ func main() {
 	case "raw":
 		rawMode = true
 		genRaw(w, *tier)
+	case "obj":
+		genObj(w, *tier)
 	default:
 		fmt.Fprintln(os.Stderr, "unknown mode")
 		os.Exit(2)
@@ -342,6 +344,7 @@ func runCase(w *out.W, id string, sc *scenario, tags ...string) {
 	hyp := scenarioWF(sc) && scenarioConsistent(sc)
 	var obs []string
 	nontrivial := false
+	hasObj := sc.hasObjects()
 	for _, ep := range []struct {
 		name string
 		run  func() runRes
@@ -350,6 +353,9 @@ func runCase(w *out.W, id string, sc *scenario, tags ...string) {
 		{"mysql", func() runRes { return runPlanner(sc, mysql.DefaultPlan, "int") }},
 		{"pg", func() runRes { return runPlanner(sc, postgres.DefaultPlan, "integer") }},
 	} {
+		if (hasObj || sc.hasTypes()) && ep.name == "mysql" {
+			continue // the MySQL planner has no object (enum type) changes
+		}
 		r := ep.run()
 		beat.Add(1)
 		if r.err != "" {
@@ -362,6 +368,12 @@ func runCase(w *out.W, id string, sc *scenario, tags ...string) {
 		if !hyp {
 			viol = nil // outside WF / consistent the property says nothing; the case is compared only
 		}
+		if hasObj || sc.hasTypes() {
+			// enum types: not in the Coq model (oracle-only stage "objects")
+			for _, v := range judgeTypes(sc, r.outp) {
+				w.Violation(id, v.class, fmt.Sprintf("%s: %s; plan %s; case: %s", ep.name, v.msg, showOut(r.outp), line))
+			}
+		}
 		for _, v := range viol {
 			class := v.class
 			if class == "fk-before-table" && cyc && isRepoint(sc, v) {
@@ -373,7 +385,9 @@ func runCase(w *out.W, id string, sc *scenario, tags ...string) {
 		}
 		if ep.name == "sort" {
 			// the hypotheses of the theorems on this case, and C04_safe_exact's prediction
-			if hyp {
+			if hyp && (hasObj || sc.hasTypes()) {
+				w.Count("hyp:WF+consistent-with-enum-objects(outside the model)")
+			} else if hyp {
 				w.Count("hyp:WF+consistent")
 				predicted := "ok" // theorem C04_safe
 				if predicted == verdict {
@@ -638,6 +652,97 @@ func genRaw(w *out.W, tier string) {
 			}
 		}
 		runRawCase(w, fmt.Sprintf("wr%d", k), mkScenario(n, roles, adj, r.Intn(4), randPerm(r, n)), fmt.Sprintf("n:%d", n))
+	}
+}
+
+// objScenario: 1..4 tables (created / dropped / modified, sparse FK graph) and 1..3 enum types
+// (created / dropped / kept) used by columns of those tables; all changes in random order.
+func objScenario(r *rng.R) *scenario {
+	n := 1 + r.Intn(4)
+	roles := make([]int, n)
+	for i := range roles {
+		roles[i] = r.Intn(3)
+	}
+	adj := make([][]bool, n)
+	for i := range adj {
+		adj[i] = make([]bool, n)
+		for j := range adj[i] {
+			adj[i][j] = r.Chance(1, 4)
+		}
+	}
+	sc := mkScenario(n, roles, adj, r.Intn(4), nil)
+	ne := 1 + r.Intn(3)
+	const eC, eX, eK = 0, 1, 2
+	erole := make([]int, ne)
+	for k := range erole {
+		erole[k] = r.Intn(3)
+		if erole[k] != eC {
+			sc.cat.types = append(sc.cat.types, k)
+		}
+	}
+	for ci := range sc.cs {
+		c := &sc.cs[ci]
+		for k := 0; k < ne; k++ {
+			if !r.Chance(1, 2) {
+				continue
+			}
+			switch c.kind {
+			case 'A':
+				if erole[k] != eX {
+					c.types = append(c.types, 2*k+1)
+				}
+			case 'D':
+				if erole[k] != eC {
+					c.types = append(c.types, 2*k)
+					sc.cat.uses = append(sc.cat.uses, [2]int{c.t.name, k})
+				}
+			case 'M':
+				switch {
+				case erole[k] == eC || (erole[k] == eK && r.Bool()):
+					c.tcs = append(c.tcs, tch{kind: 'c', k: r.Intn(2), e: 2*k + 1})
+				case erole[k] != eC:
+					c.tcs = append(c.tcs, tch{kind: 'c', k: 2, e: 2 * k})
+					sc.cat.uses = append(sc.cat.uses, [2]int{c.t.name, k})
+				}
+			}
+		}
+		if c.kind == 'M' && len(c.tcs) > 1 {
+			p := randPerm(r, len(c.tcs))
+			tcs := make([]tch, len(c.tcs))
+			for i, j := range p {
+				tcs[i] = c.tcs[j]
+			}
+			c.tcs = tcs
+		}
+	}
+	for k := 0; k < ne; k++ {
+		switch erole[k] {
+		case eC:
+			sc.cs = append(sc.cs, chg{kind: 'P', e: 2*k + 1})
+		case eX:
+			sc.cs = append(sc.cs, chg{kind: 'Q', e: 2 * k})
+		}
+	}
+	p := randPerm(r, len(sc.cs))
+	cs := make([]chg, len(sc.cs))
+	for i, j := range p {
+		cs[i] = sc.cs[j]
+	}
+	sc.cs = cs
+	return sc
+}
+
+// genObj: DetachCycles + SortChanges and postgres.DefaultPlan on change sets with enum objects.
+func genObj(w *out.W, tier string) {
+	w.Rule = "seeded random change sets with enum objects: 1..4 tables (created/dropped/modified, sparse FK graph incl. cycles) x 1..3 enum types (created/dropped/kept) used by columns (inline in CREATE TABLE, AddColumn, ModifyColumn, DropColumn), all changes in random order; sqlx.DetachCycles+SortChanges and postgres.DefaultPlan (the MySQL planner has no object changes). ORACLE-ONLY stage: enum types are not in the Coq model, nothing is compared. Oracle: the table/foreign-key catalogue as in the other stages, plus: a type exists when a table or column uses it, is created once, is dropped only when unused. Non-trivial = the planned order differs from the input order"
+	r := rng.FromEnv(0xC04C)
+	count := 6000
+	if tier == "thorough" {
+		count = 120000
+	}
+	for k := 0; k < count; k++ {
+		sc := objScenario(r)
+		runCase(w, fmt.Sprintf("o%d", k), sc, fmt.Sprintf("changes:%d", len(sc.cs)))
 	}
 }
 
